@@ -206,10 +206,13 @@ func (z *ZodFunction[T]) PrefaultFunc(fn func() any) *ZodFunction[T] {
 	return z.withInternals(in)
 }
 
-// Meta stores metadata for this function schema.
+// Meta returns a new schema with the given metadata stored in the global
+// registry; the receiver and its registry entry are unchanged.
 func (z *ZodFunction[T]) Meta(meta core.GlobalMeta) *ZodFunction[T] {
-	core.GlobalRegistry.Add(z, meta)
-	return z
+	in := z.internals.Clone()
+	clone := z.withInternals(in)
+	core.GlobalRegistry.Add(clone, meta)
+	return clone
 }
 
 // Describe registers a description in the global registry.
